@@ -3,8 +3,8 @@
 
   Safety (prefix / EOF honesty / errors surface) is proved for all schedules of the two-endpoint
   system of Model/Pair.lean, whose wire may drop, delay, reorder *and duplicate* arbitrarily.
-  Liveness is false on the faithful model: the full statement is `C06_Live_Statement`, refuted by six
-  witnesses (F-C06-1 … -6); five of them complete on the model with their repair flag set, F-C06-4 (no
+  Liveness is false on the faithful model: the full statement is `C06_Live_Statement`, refuted by seven
+  witnesses (F-C06-1 … -7); six of them complete on the model with their repair flag set, F-C06-4 (no
   zero-window probe) has no small repair.
 -/
 import TvNetTcp.Proofs.PairStep
@@ -384,6 +384,42 @@ theorem fixed_F_C06_6 :
         (Spec.modelHistory { cfgRepaired with fixQuietClose := true } 2 fixed_lostLastAck) = none ∧
     ((Sys.init { cfgRepaired with fixQuietClose := true } 2).run fixed_lostLastAck).2.getLast? = some [Obs.okBytes [1, 2, 3]] := by
   refine ⟨by decide, by decide⟩
+
+def witness_overshoot : List Op :=
+    [.listen 1 0 srv, .connect 0 0 0 srv, .egress, .deliver 0, .egress, .deliver 1, .cpoll 0 0,
+    .egress, .deliver 2, .accept 0 1, .write 0 [1, 2, 3, 4, 5, 6, 7, 8, 9, 10], .egress, .deliver 3,
+    .egress, .deliver 4, .egress, .egress, .egress, .read 1 2, .read 1 2, .egress, .deliver 5,
+    .deliver 6, .egress, .drop 7, .egress, .egress, .egress, .egress, .deliver 8, .egress, .egress,
+    .deliver 9, .egress, .egress, .egress, .egress, .egress, .egress, .egress, .egress, .read 1 2,
+    .write 0 [11]]
+
+def fixed_overshoot : List Op :=
+    [.listen 1 0 srv, .connect 0 0 0 srv, .egress, .deliver 0, .egress, .deliver 1, .cpoll 0 0,
+    .egress, .deliver 2, .accept 0 1, .write 0 [1, 2, 3, 4, 5, 6, 7, 8, 9, 10], .egress, .deliver 3,
+    .egress, .deliver 4, .egress, .egress, .egress, .read 1 2, .read 1 2, .egress, .deliver 5,
+    .deliver 6, .egress, .drop 7, .egress, .egress, .egress, .egress, .deliver 8, .egress, .egress,
+    .deliver 9, .deliver 10, .egress, .deliver 11, .egress, .egress, .egress, .egress, .egress,
+    .egress, .egress, .read 1 2, .write 0 [11]]
+
+def cfgSmallBudget : Cfg := { cfgRepaired with recvCap := 4, sendCap := 16, retxMax := 2 }
+
+set_option maxRecDepth 100000 in
+/-- F-C06-7: `recv_buf_cap = 4`, `retx_max = 2`, one dropped packet, two packets held one round.
+    SYN and SYN-ACK advertise the constant 65535, so the first flight (10 bytes) overshoots the
+    receiver's 4-byte buffer; the 6 refused bytes "time out" and cost a retransmit attempt although
+    nothing was lost. One genuinely lost segment later the budget is spent and the connection aborts
+    with `TimedOut` — within the stated fault budget. On the model with the committed repairs. -/
+theorem witness_F_C06_7 : ¬ C06_Live_Statement cfgSmallBudget := by
+  intro h
+  exact absurd (h witness_overshoot) (by decide)
+
+set_option maxRecDepth 100000 in
+/-- With `fixSynWindow` (SYN / SYN-ACK advertise `advertised_window(recv_buf_cap, 0)`) the same
+    scenario completes. -/
+theorem fixed_F_C06_7 :
+    Spec.c06Liveness { cfgSmallBudget with fixSynWindow := true }
+      (Spec.modelHistory { cfgSmallBudget with fixSynWindow := true } 2 fixed_overshoot) = none := by
+  decide
 
 set_option maxRecDepth 100000 in
 /-- With the repairs switched on the same scenarios (same application calls, same loss; packet ids
